@@ -29,11 +29,11 @@ LEVEL_NOTE = ('Partial: np.fft.fft2/fftshift/ifftshift and np.round/np.min/np.ma
               'oversample is exercised by the oracle only (known finding KF-C09-float-oversample-explicit-shape); anisotropic dx·du whose per-axis wavelengths DIFFER is excluded by '
               'hypothesis (KF-C09-fft-anisotropic-wavelength; consistent per-axis grids are covered). Trusted: Lean kernel, py2lean subset semantics, generator coverage.')
 TECHNIQUE = 'Lean 4 proof (finite-sum reindexing, omega) over hand model with differential correspondence at Float'
-GEN = ['Extent', 'FieldIdx', 'FftScratch', 'PropagateMeta', 'Util', 'Window', 'FieldMerge', 'FieldDispatch', 'FieldAccum']
+GEN = ['Extent', 'FftScratch', 'FieldDispatch', 'FieldIdx', 'FieldMerge', 'FourierWiring', 'Helper', 'Helper20', 'Hex', 'Mesh', 'PlanePhase', 'PlaneType', 'PropagateMeta', 'TiltFit', 'Util', 'Window', 'FieldAccum']      # every Gen module the model, lemmas and driver import (transitively)
 OPS = ['C02', 'C09']
 RULE = ('cases: pupils 1..6 x 1..6 (even/odd/non-square, off-centre, segmented) no larger than the grid; FFT grids 2..12 of both '
         'parities chosen through du (1/alpha within +-0.35 of the target, incl. non-integer); oversample 1..4; shape None/int/pair '
-        'accepted and too large; scratch none / exact / larger / too small, zero / random-dirty / left from a previous call; '
+        'accepted and too large (one in three given as np.int64 / int32 array); scratch none / exact / larger / too small, zero / random-dirty / left from a previous call, one in three a non-contiguous strided view whose parent array is watched too; '
         'tilted wavefronts; one case in five has anisotropic dx*du (non-square grids, wider and taller, mostly with dirty/re-used scratch: '
         'scratch = no scratch, exact scratch_shape and refusals are checked there too; only FFT vs DFT is the known-finding class). distinct = (pupil, grid, os, shape, scratch, class); '
         'non-trivial = odd grid or scratch or explicit shape or refusal'
@@ -99,6 +99,9 @@ def _case(rng, tier, k, out, scale=1.0, near=None, smax=None, kmax=6, float_os=F
                        'pad': [0, 0], 'seed': int(rng.integers(0, 2 ** 31))}
             if scratch['size'] == 'larger': scratch['pad'] = [int(rng.integers(0, 4)), int(rng.integers(1, 4))]
             if shape is not None and rng.integers(0, 2): shape = None
+        # the caller's buffer as a non-contiguous strided view into a larger array; shape given as NumPy integers / arrays
+        if scratch is not None and rng.integers(0, 3) == 0: scratch['view'] = True
+        shape_np = bool(shape is not None and rng.integers(0, 3) == 0)
         tilt = None
         if rng.integers(0, 10) == 0: tilt = [float(rng.uniform(-1e-6, 1e-6)), float(rng.uniform(-1e-6, 1e-6))]
         # which fields carry the tilt: all of them (Tilt plane / Wavefront(tilt)), or only ONE segment of a segmented pupil
@@ -110,7 +113,7 @@ def _case(rng, tier, k, out, scale=1.0, near=None, smax=None, kmax=6, float_os=F
             wl_list = [WL * f for f in (0.7, 1.0, 0.85)] if rng.integers(0, 2) else [WL, WL * 0.6]
             if rng.integers(0, 2): wl_list = wl_list[::-1]
         c = ({'kind': 'fft', 'class': cls, 'pupil': p, 'dx': dx, 'scalar_dx': bool(scalar_dx), 'du': du, 'scalar_du': scalar_du,
-                    'wl': WL, 'z': Z, 'os': os_, 'shape': shape, 'scratch': scratch, 'tilt': tilt, 'tilt_on': tilt_on, 'wl_list': wl_list,
+                    'wl': WL, 'z': Z, 'os': os_, 'shape': shape, 'shape_np': shape_np, 'scratch': scratch, 'tilt': tilt, 'tilt_on': tilt_on, 'wl_list': wl_list,
                     'wtilt': bool(tilt is not None and tilt_on == 'all' and rng.integers(0, 2))})
         if scale != 1.0: c['scale'] = scale
         if near: c['near'] = near
@@ -177,6 +180,18 @@ def _scratch(c, S):
     s = c['scratch']
     if s is None: return None
     shp = (max(1, S[0] + s['pad'][0]), max(1, S[1] + s['pad'][1]))
+    buf = _scratch_content(c, s, shp)
+    if s.get('view'):
+        # every second row/column of a larger array: same values, not contiguous; the parent's other entries are watched too
+        parent = np.full((2 * shp[0] + 1, 2 * shp[1] + 2), 5 - 2j, dtype=complex)
+        v = parent[1:1 + 2 * shp[0]:2, 1:1 + 2 * shp[1]:2]
+        v[...] = buf
+        return v
+    return buf
+
+def _scratch_content(c, s, shp):
+    import lentil
+    WL, Z = P._wz(c)
     r = np.random.default_rng(s['seed'])
     if s['content'] == 'zero': return np.zeros(shp, dtype=complex)
     if s['content'] == 'dirty': return (r.integers(-3, 4, shp) + 1j * r.integers(-3, 4, shp)).astype(complex)
@@ -203,6 +218,7 @@ def impl(c):
         adv_list = [int(x) for x in lentil.propagate.scratch_shape(list(c['wl_list']), dxa, du, Z, c['os'])]
         adv_each = [[int(x) for x in lentil.propagate.scratch_shape(wl, dxa, du, Z, c['os'])] for wl in c['wl_list']]
     shape = c['shape'] if not isinstance(c['shape'], list) else tuple(c['shape'])
+    if c.get('shape_np') and shape is not None: shape = np.int64(shape) if isinstance(shape, int) else np.array(shape, dtype=np.int32)
     scr = _scratch(c, adv_list if adv_list is not None else adv)
     inp = {'fields': [dict(P._cx(f.data), off=[int(f.offset[0]), int(f.offset[1])]) for f in w.data],
            'has_tilt': bool(any(f.tilt for f in w.data)), 'ntilt': [len(f.tilt) for f in w.data],
@@ -210,6 +226,7 @@ def impl(c):
            'pixelscale': [float(x) for x in w.pixelscale], 'wavelength': float(w.wavelength), 'focal_length': float(w.focal_length),
            'scratch': None if scr is None else P._cx(scr), 'advertised': adv}
     scr0 = None if scr is None else scr.copy()
+    parent0 = scr.base.copy() if scr is not None and scr.base is not None else None
     try:
         o = lentil.propagate_fft(w, pixelscale=du, shape=shape, oversample=c['os'], scratch=scr)
     except Exception as e:
@@ -226,6 +243,9 @@ def impl(c):
         g0, g1 = res['grid']
         keep = np.ones(scr.shape, bool); keep[:g0, :g1] = False
         res['outside_unchanged'] = bool(np.array_equal(scr[keep], scr0[keep]))
+        if parent0 is not None:
+            inview = np.zeros(parent0.shape, bool); inview[1:1 + 2 * scr.shape[0]:2, 1:1 + 2 * scr.shape[1]:2] = True
+            res['outside_unchanged'] = res['outside_unchanged'] and bool(np.array_equal(scr.base[~inview], parent0[~inview]))
     # reference 1: the same call without scratch
     if scr is not None:
         o2 = lentil.propagate_fft(w, pixelscale=du, shape=shape, oversample=c['os'])
@@ -363,7 +383,7 @@ def replay_finding(kf):
 def signature(c):
     s = c['scratch']
     return (f"sc={c.get('scale')} near={c.get('near')} {c['class']} wl={P._wz(c)[0]:.3g} z={P._wz(c)[1]:g} wll={c.get('wl_list') is not None} ton={c.get('tilt_on')} {c['pupil']['shape']} seg={c['pupil']['seg'] is not None} du={c['du'][0]:.6g},{c['du'][1]:.6g} os={c['os']} shape={c['shape']} "
-            f"scratch={None if s is None else (s['size'], s['content'], s['pad'])} tilt={c['tilt'] is not None}")
+            f"scratch={None if s is None else (s['size'], s['content'], s['pad'], bool(s.get('view')))} np={bool(c.get('shape_np'))} tilt={c['tilt'] is not None}")
 
 def nontrivial(c):
     return bool(c['scratch'] is not None or c['shape'] is not None or c['tilt'] is not None or c['class'].startswith('aniso')
@@ -379,6 +399,8 @@ def tags(c):
     t.append('shape:' + ('default' if sh is None else 'int' if isinstance(sh, int) else 'pair'))
     if c['tilt'] is not None: t.append('tilted:' + ('one-segment' if c.get('tilt_on', 'all') != 'all' else 'wavefront' if c.get('wtilt') else 'plane'))
     if c.get('wl_list'): t.append('scratch_shape:wavelength-list')
+    if s is not None and s.get('view'): t.append('scratch:strided-view')
+    if c.get('shape_np'): t.append('shape:numpy-int')
     if c.get('scale'): t.append(f"scale={c['scale']:g}")
     if c.get('near'): t.append('near:' + c['near'])
     if c.get('float_os'): t.append(f"oversample:float {c['os']}")
